@@ -13,7 +13,7 @@ import random
 
 from . import tm
 from .driver import Accounting, Suspend, Task
-from .graph import build_paths
+from .graph import build_paths, stream_replays
 from .instruments import Cancelled, InjectedError
 from .report import Verdict
 from .tlc import MachineryError, read_ndjson, run_tlc
@@ -373,16 +373,16 @@ def check(prop, tier, seed, into=None):
             label_counts[e_["a"][0]] = label_counts.get(e_["a"][0], 0) + 1
         paths = build_paths(edges, lambda f: f["runs"] == 0 and f["nph"] == 0 and f["dels"] == 0 and all(x == "idle" for x in f["pc"]) and all(x == cfg[5] for x in f["left"]))
         tot["paths"] += len(paths)
+        cap = 800 if tier == "mini" else 2000 if tier == "quick" else 20000
+        jobs = [(cfg, p) for p in paths]
+        del edges, paths
         with mp.Pool(min(16, os.cpu_count() or 4)) as pool:
-            results = pool.map(replay_path, [(cfg, p) for p in paths], chunksize=max(1, len(paths) // 128))
-        drifted = [r for r in results if r["drift"]]
-        clean = [r for r in results if not r["drift"]]
+            drifted, sample, bad, _n = stream_replays(pool, replay_path, jobs, rnd, cap)
+        del jobs
         tot["drift"] += len(drifted)
-        cap = 800 if tier == "mini" else 2000 if tier == "quick" else 30000
-        alltraces += drifted + (clean if len(clean) <= cap else rnd.sample(clean, cap))
-        for r in results:
-            if not r["acct_ok"]:
-                v.violation("C12/cached_property/foreign-suspension", {"engine": "cprop", "path": r["path"], "cfg": r["cfg"]})
+        alltraces += drifted + sample
+        for b in bad:
+            v.violation("C12/cached_property/foreign-suspension", {"engine": "cprop", **b})
     nrand = 300 if tier == "mini" else 1500 if tier == "quick" else 20000
     jobs = [(seed * 15485863 + i, rnd.choice([1, 2, 3, 4, 5]), rnd.choice([1, 2, 3]), rnd.random() < 0.6, rnd.choice([0, 1, 2, 3])) for i in range(nrand)]
     with mp.Pool(min(16, os.cpu_count() or 4)) as pool:
